@@ -557,6 +557,8 @@ def check_entries(r, spec, n, ref, prefix):
             want = src.reshape((numel(shape[:n]),) + tuple(rest))[ref]
             if tuple(v.shape) != tuple(want.shape):
                 return f"leaf-shape {prefix + (k,)}: {tuple(v.shape)} expected {tuple(want.shape)}"
+            if v.dtype != want.dtype:
+                return f"leaf-dtype {prefix + (k,)}: {v.dtype} expected {want.dtype}"
             if not torch.equal(v, want):
                 return f"leaf-values {prefix + (k,)} differ from the op applied to the batch dims"
         else:
@@ -899,6 +901,8 @@ def check_ext_entries(res, specs, n, kind, args, ref, prefix):
                 want = srcs[0].reshape((numel(shape[:n]),) + tuple(shape[n:]))[ref]
             if tuple(v.shape) != tuple(want.shape):
                 return f"leaf-shape {prefix + (k,)}: {tuple(v.shape)} expected {tuple(want.shape)}"
+            if v.dtype != want.dtype:
+                return f"leaf-dtype {prefix + (k,)}: {v.dtype} expected {want.dtype}"
             if not torch.equal(v, want):
                 return f"leaf-values {prefix + (k,)} differ from torch applied to the batch dims"
         else:
